@@ -105,6 +105,43 @@ fn run_thread(tid: usize, ops: &[Op], mut h: Handles, sh: &Shared, collect: bool
                     sh.rec(tid, HOp::SetIfNotEq(*v), inv, Res::Opt(p));
                 }
             }
+            Op::SetIfHashNotEq(v) => {
+                if let Some(u) = h.uniq.as_mut() {
+                    let p = Observable::set_if_hash_not_eq(u, *v);
+                    sh.rec(tid, HOp::SetIfNotEq(*v), inv, Res::Opt(p));
+                } else if let Some(o) = h.owners.last() {
+                    let p = o.set_if_hash_not_eq(*v);
+                    sh.rec(tid, HOp::SetIfNotEq(*v), inv, Res::Opt(p));
+                }
+            }
+            Op::TryWriteRmw(t) => {
+                if let Some(o) = h.owners.last() {
+                    if let Ok(mut g) = o.try_write() {
+                        let a = *g;
+                        shuttle::thread::yield_now();
+                        let p = ObservableWriteGuard::set(&mut g, upd(a, *t));
+                        drop(g);
+                        if a != p {
+                            panic!("{ORACLE} guard_exclusion: a write guard (try_write) read {a} but its set returned {p} as the previous value");
+                        }
+                        sh.rec(tid, HOp::Rmw(*t), inv, Res::Val(a));
+                    }
+                }
+            }
+            Op::TryRead => {
+                if let Some(o) = h.owners.last() {
+                    if let Ok(g) = o.try_read() {
+                        let a = *g;
+                        shuttle::thread::yield_now();
+                        let b = *g;
+                        drop(g);
+                        if a != b {
+                            panic!("{ORACLE} guard_exclusion: the value changed from {a} to {b} while a read guard (try_read) was alive");
+                        }
+                        sh.rec(tid, HOp::Read, inv, Res::Val(a));
+                    }
+                }
+            }
             Op::Take => {
                 if let Some(u) = h.uniq.as_mut() {
                     let p = Observable::take(u);
@@ -256,6 +293,43 @@ fn run_thread(tid: usize, ops: &[Op], mut h: Handles, sh: &Shared, collect: bool
                 if let Some((id, s)) = h.subs.last_mut() {
                     let v = s.next_now();
                     sh.rec(tid, HOp::NextNow(*id), inv, Res::Val(v));
+                }
+            }
+            Op::SubNextRefNow => {
+                if let Some((id, s)) = h.subs.last_mut() {
+                    let v = *s.next_ref_now();
+                    sh.rec(tid, HOp::NextNow(*id), inv, Res::Val(v));
+                }
+            }
+            Op::PollNextRef => {
+                if let Some((id, s)) = h.subs.last_mut() {
+                    let wk = Waker::from(Arc::new(Noop));
+                    let mut cx = Context::from_waker(&wk);
+                    let r = {
+                        let mut fut = std::pin::pin!(s.next_ref());
+                        match std::future::Future::poll(fut.as_mut(), &mut cx) {
+                            Poll::Pending => PollR::Pending,
+                            Poll::Ready(None) => PollR::End,
+                            Poll::Ready(Some(g)) => PollR::Some(*g),
+                        }
+                    };
+                    sh.rec(tid, HOp::Poll(*id), inv, Res::Poll(r));
+                }
+            }
+            Op::SubReset => {
+                if let Some((id, s)) = h.subs.last_mut() {
+                    s.reset();
+                    sh.rec(tid, HOp::SubReset(*id), inv, Res::Unit);
+                }
+            }
+            Op::SubCloneReset => {
+                if h.subs.len() < 2 {
+                    if let Some((_, s)) = h.subs.last() {
+                        let id = sh.next_sub.fetch_add(1, Ordering::SeqCst);
+                        let c = s.clone_reset();
+                        h.subs.push((id, c));
+                        sh.rec(tid, HOp::Subscribe { id, reset: true }, inv, Res::Unit);
+                    }
                 }
             }
             Op::PollOnce => {
